@@ -72,6 +72,7 @@ def source(case, d, tag, seed):
     inputs.write_segy_traces(sgy, traces, float(case['delay']) + 4.0 * np.arange(nz), H, fmt=case['fmt'], text=text,
                              bin_fields={segyio.BinField.JobID: 77, segyio.BinField.LineNumber: -3, segyio.BinField.Traces: n + 3,
                                          segyio.BinField.SortingCode: 4, segyio.BinField.MeasurementSystem: 2,
+                                         segyio.BinField.EnsembleFold: case.get('fold', 1), segyio.BinField.AuxTraces: 2,
                                          **({} if case.get('binint') is None else {segyio.BinField.Interval: case['binint']})})
     if case.get('text') == 'nul':       # a textual header that was never filled in
         with open(sgy, 'r+b') as f:
@@ -195,7 +196,9 @@ def plan(run):
                           'rate': st[0], 'bs': list(st[1]) if st[1] else None, 'route': 'cli' if k % 5 == 0 else 'api', 'nz': (6, 40, 9)[k % 3],
                           'delay': (0, 8, -12, 100)[k % 4], 'text': (None, 'nul', None, 'spaces', None, None)[k % 6],
                           # the sample interval in the binary header: as in the trace headers, absent (0), or contradicting them
-                          'binint': (None, None, 0, None, 3000, None, None)[k % 7]})
+                          'binint': (None, None, 0, None, 3000, None, None)[k % 7],
+                          # the word after the format code in the binary header (ensemble fold): small, and with its high byte in use
+                          'fold': (1, 300, 24, 4096)[k % 4]})
             k += 1
     return cases
 
